@@ -25,14 +25,15 @@ CONSTANTS
   Prefixes <- Pfx2
   LocalAS = 65000
   MaxSteps = %(steps)d
+  WithPolicy = %(pol)s
 INVARIANTS
   Emit
 """
 
 
-def gen(run, g, num, seed, steps):
+def gen(run, g, num, seed, steps, policy=False):
     cfg = "SpeakerGen_%s_%d.cfg" % (g, seed)
-    v.write_cfg(run.sc, cfg, GEN_CFG % {"g": g, "steps": steps})
+    v.write_cfg(run.sc, cfg, GEN_CFG % {"g": g, "steps": steps, "pol": "TRUE" if policy else "FALSE"})
     res = v.tlc(run.sc, "SpeakerGen", cfg, mode="simulate", simulate="num=%d" % num, depth=steps + 1,
                 seed=seed, workers=1, deadlock=False, timeout=900)
     v.require_design_ok(res, "SpeakerGen " + g)
@@ -70,14 +71,14 @@ def design_mech(run, thorough):
         run.design(res, "SpeakerMech %s" % g)
 
 
-def run_speaker(run, invs, kf_invs=None, design=design_mech):
+def run_speaker(run, invs, kf_invs=None, design=design_mech, policy=False):
     thorough = run.tier == "thorough"
     if design:
         design(run, thorough)
     num = 25 if not thorough else 200
     steps = 14 if not thorough else 18
     for i, g in enumerate(GROUPS):
-        behs = run.replay_behaviours(g) if run.replay else gen(run, g, num, run.seed * 100 + i, steps)
+        behs = run.replay_behaviours(g) if run.replay else gen(run, g, num, run.seed * 100 + i, steps, policy)
         if not behs:
             continue
         traces = run.execute("c01", "pkg/server", "^TestVerifC01$", behs, tag="speaker-" + g)
